@@ -352,3 +352,86 @@ Lemma run_from_valid_iff {K V} (f : K -> K -> comparison) (l : list (K * V)) p m
 Proof.
   revert p. induction ms as [|m ms IH]; intros p; cbn; constructor; auto.
 Qed.
+
+(* every output of a walk is "not valid, nothing" or a pair of the list, valid iff a pair is shown *)
+Lemma run_from_outputs {K V} (f : K -> K -> comparison) (l : list (K * V)) p ms :
+  Forall (fun o => fst o = is_some (snd o) /\ forall x, snd o = Some x -> In x l) (run_from f l p ms).
+Proof.
+  revert p. induction ms as [|m ms IH]; intros p; cbn; constructor; auto.
+  split; [reflexivity|]. cbn. intros x H. destruct (cstep f l p m); cbn in H; try discriminate.
+  eapply nth_error_In; eauto.
+Qed.
+
+Lemma run_cursor_outputs {K V} (f : K -> K -> comparison) (l : list (K * V)) ms :
+  Forall (fun o => fst o = is_some (snd o) /\ forall x, snd o = Some x -> In x l) (run_cursor f l ms).
+Proof. apply run_from_outputs. Qed.
+
+(* Seek(k) lands on the first key >= k *)
+Lemma seek_lands_first_ge {K V} (f : K -> K -> comparison) (ok : ord_ok f) (l : list (K * V)) p k :
+  sorted_kv f l ->
+  match cobs l (cstep f l p (MSeek k)) with
+  | Some x => In x l /\ f (fst x) k <> Lt /\ forall y, In y l -> f (fst y) k <> Lt -> f (fst x) (fst y) <> Gt
+  | None => forall y, In y l -> f (fst y) k = Lt
+  end.
+Proof.
+  intros Hs. cbn [cstep]. destruct (find_ge f k l 0) as [|i|] eqn:E.
+  - exfalso. eapply find_ge_not_soi; eauto.
+  - destruct (find_ge_at f k l i E) as (x & Hx & Hge & Hlt). cbn [cobs]. rewrite Hx.
+    split; [eapply nth_error_In; eauto|]. split; [exact Hge|]. intros y Hy Hyge.
+    apply In_nth_error in Hy as [j Hj].
+    destruct (Nat.lt_trichotomy j i) as [H|[H|H]].
+    + exfalso. apply Hyge. eapply Hlt; eauto.
+    + subst. assert (y = x) by congruence. subst. rewrite (f_refl f ok). discriminate.
+    + pose proof (sorted_nth_lt f l Hs i j x y H Hx Hj) as L. rewrite L. discriminate.
+  - cbn [cobs]. apply (find_ge_eoi f k l E).
+Qed.
+
+(* ---- a black-box child as a cursor over a split list ---- *)
+Section ChildFacts.
+  Context {K V C : Type} (f : K -> K -> comparison) (step : C -> move K -> C) (obs : C -> option (K * V)).
+  Variable l : list (K * V).
+  Notation at_ x q := (refines_from f step obs x l q).
+
+  Lemma nth_error_middle {A} (a : list A) e b : nth_error (a ++ e :: b) (length a) = Some e.
+  Proof. rewrite nth_error_app2 by lia. rewrite Nat.sub_diag. reflexivity. Qed.
+
+  Lemma rf_obs_mid x A e B : l = A ++ e :: B -> at_ x (At (length A)) -> obs x = Some e.
+  Proof. intros Hl H. rewrite (refines_from_obs f step obs _ _ _ H). cbn. rewrite Hl. apply nth_error_middle. Qed.
+
+  Lemma rf_none x q : at_ x q -> q = SOI \/ q = EOI -> obs x = None.
+  Proof. intros H [-> | ->]; rewrite (refines_from_obs f step obs _ _ _ H); reflexivity. Qed.
+
+  Lemma rf_next_some x A e e' B : l = A ++ e :: e' :: B -> at_ x (At (length A)) ->
+    at_ (step x MNext) (At (S (length A))).
+  Proof.
+    intros Hl H. pose proof (refines_from_step f step obs _ _ _ MNext H) as H'.
+    rewrite cstep_next_lt in H' by (rewrite Hl, app_length; cbn; lia). exact H'.
+  Qed.
+
+  Lemma rf_next_none x A e : l = A ++ [e] -> at_ x (At (length A)) -> at_ (step x MNext) EOI.
+  Proof.
+    intros Hl H. pose proof (refines_from_step f step obs _ _ _ MNext H) as H'.
+    rewrite cstep_next_ge in H' by (rewrite Hl, app_length; cbn; lia). exact H'.
+  Qed.
+
+  Lemma rf_prev_some x i : at_ x (At (S i)) -> at_ (step x MPrev) (At i).
+  Proof. intros H. exact (refines_from_step f step obs _ _ _ MPrev H). Qed.
+
+  Lemma rf_prev_none x : at_ x (At 0) -> at_ (step x MPrev) SOI.
+  Proof. intros H. exact (refines_from_step f step obs _ _ _ MPrev H). Qed.
+End ChildFacts.
+
+Lemma find_ge_shift {K V} (f : K -> K -> comparison) k (l : list (K * V)) : forall i0,
+  find_ge f k l i0 = match find_ge f k l 0 with At j => At (i0 + j) | q => q end.
+Proof.
+  induction l as [|x l IH]; intros i0; cbn; [reflexivity|].
+  destruct (f (fst x) k); try (rewrite Nat.add_0_r; reflexivity).
+  rewrite (IH (S i0)), (IH 1). destruct (find_ge f k l 0); auto. f_equal. lia.
+Qed.
+
+Lemma find_ge_app_found {K V} (f : K -> K -> comparison) k (l1 l2 : list (K * V)) : forall i0 j,
+  find_ge f k l1 i0 = At j -> find_ge f k (l1 ++ l2) i0 = At j.
+Proof.
+  induction l1 as [|x l1 IH]; intros i0 j; cbn; [discriminate|].
+  destruct (f (fst x) k); auto.
+Qed.
